@@ -142,6 +142,51 @@ FOCUS_F = {
 }
 ROUND_FOCUS["F"] = FOCUS_F
 
+# round G
+FOCUS_G = {
+ "C01": ["`${#x}` and the `#` `##` `%` `%%` forms on values containing multi-byte characters, and `$*` / `$@` where no field splitting happens (`x=$*`, `x=\"$@\"`, `${y:-$@}`, here-document bodies, `case $* in`)",
+         "the `read` built-in: IFS white space around the remainder given to the last variable, a trailing non-white-space separator, fewer fields than variables, more variables than fields, `-r` versus backslash handling"],
+ "C02": ["status of negated multi-command pipelines and `!` before compound commands; a function named like a regular built-in wins while one named like a special built-in does not; a function defined inside a loop or `if` and called later",
+         "a loop's status is that of the last body command run (zero if the body never ran), not of the condition; `break N` / `continue N` with N greater than the nesting depth act on the outermost loop; loops inside functions called from loops"],
+ "C03": ["integer constants: octal `010`, hexadecimal `0x1F` / `0X1f`, invalid digits (`08`, `0x`, `1a`), the values 9223372036854775807 and 9223372036854775808, unary minus applied to the largest literal",
+         "bitwise operators `&` `|` `^` `~` `<<` `>>` on negative operands (arithmetic right shift), comparison and `!` results being exactly 0 or 1, nested `?:` with assignments in the branches"],
+ "C04": ["`*` next to bracket expressions and backtracking (`*[a-c]*x`, several `*`, pattern longer than the string); ranges with reversed end points; a range end point written as a collating symbol",
+         "patterns coming from expansions: a quoted part (`\"$p\"`) matches literally while an unquoted `$p` is a pattern, in `case` items and in `${x#$p}` / `${x%%\"$p\"}`; a backslash inside a pattern that comes from a variable"],
+ "C05": ["several wildcard components (`*/*/*`, `*/.*`), a trailing slash selecting directories only (`*/`), and the order of the whole result (pathnames compared as whole strings: `a-b/c` versus `a/c`)",
+         "a leading period is not matched by `?`, `*` or a bracket expression at the start of every component (not only the first); pathname expansion applied to each field after field splitting of one word"],
+ "C06": ["totality around operators and redirections: `<<-`, `<&-`, `>|`, `<>`, IO numbers next to operators (`2>&1`, `10>f`, `2 >f`), `&&` / `|` at the end of a line, `;;` outside `case`, `}` / `)` without an opener",
+         "printing of simple commands with assignments and redirections interleaved (`a=1 <f cmd arg >g`), assignment values with quotes and tildes, array assignments `a=(1 2)`, function definitions whose body is a compound command with redirections"],
+ "C07": ["`typeset -p` for array variables, for variables that are exported and read-only at once, for local variables inside a function; `set` (variables) printing every variable once with a value that reads back",
+         "`umask` and `umask -S` output reads back to the same mask for every mask; `trap` output inside a command substitution or subshell (shows the parent's traps until one is set there) and for signals given by number or with a SIG prefix"],
+ "C08": ["assignments made by expansions inside a subshell environment (`$((x=1))`, `${x:=v}`, `for`, `read`, `getopts` in a pipeline element or command substitution) stay there; `cd` in any pipeline element including the last one",
+         "on entry: the subshell keeps `$$`, does not run the parent's EXIT trap, sees no traps with command actions, keeps ignored signals ignored also against `trap - SIG`-free scripts; nested subshells (a command substitution inside an asynchronous list inside a pipeline)"],
+ "C09": ["redirections on compound commands and on function definitions (`f() { ...; } >file`): applied at each call and undone after it, also when the body fails, calls `return`, or `break`s out of a redirected loop",
+         "duplication `n>&m` / `n<&m` where m is closed, not a number, or one of the shell's own descriptors at 10 or above (an error, and nothing of the shell's is exposed); the order `2>&1 >f` versus `>f 2>&1`; `<&-` on a closed descriptor"],
+ "C10": ["errexit and command substitutions: `x=$(false)` (assignment-only command) fails and aborts, a failing substitution in a `for` word list or `case` subject does not; a failing last command of a brace group / function body outside exempt contexts",
+         "the EXIT trap runs exactly once: `exit` inside the EXIT trap, an aborting error inside it, `exit` inside a function called from a subshell; the status after an abort caused by `${x?}` or an assignment to a read-only variable inside a function"],
+ "C11": ["the internal SIGCHLD handler under `set -m` / after `trap '' CHLD` and `trap - CHLD`; after `trap - INT` in an interactive shell the internal handler must remain; a trap set inside a subshell after the parent's were reset",
+         "a trap action that itself runs `trap`, `return` or a failing command (`$?` after the action is the one from before); the signal arriving again while its own action runs (the action runs once more, afterwards)"],
+ "C12": ["`wait %n` / `jobs` removing finished jobs and the lowest free number being reused; a job added while others are suspended does not become the current job",
+         "`fg` / `bg` / `kill` / `wait` with `%+` `%-` `%%` or no operand default to the documented job; `%string` / `%?string` that matches several jobs is an error; `jobs -l` / `-p` name the right process IDs"],
+ "C13": ["`wait` without operands waits for all children and returns zero; `wait` inside a subshell cannot wait for the parent's children (127); `$!` is not changed by foreground commands",
+         "a command substitution that starts a background job, pipelines whose last command is a function or compound command, `!` combined with `pipefail`; children finishing in every order relative to the `wait` calls"],
+ "C14": ["pipelines of three or more stages whose middle stage is a shell loop, function or brace group; a reader that stops early (the writer must end, no hang) and a writer that ends early (the reader sees end of file exactly once)",
+         "several children of one command substitution writing concurrently (`$(a & b; wait)`) - all bytes arrive, each writer's bytes in order; here-documents with `<<-` and expansions producing more than the pipe capacity"],
+ "C15": ["no woken task is starved by others that keep re-waking themselves (the run queue is first-in first-out); a task woken several times before it is polled is polled once",
+         "wakers cloned and used after their task completed (no poll, no panic); `wake_by_ref` versus `wake`; tasks spawned from inside a running task are polled in the same `run_until_stalled` call"],
+ "C16": ["dynamic scoping through nested function calls: a callee sees and assigns the caller's local, not the global; `unset` of a local; exporting a local and the environment of a program started while it is visible",
+         "temporary assignments to a function call when the function assigns, unsets or exports the same variable; a temporary assignment before `command` + special built-in; `x=1 readonly x` versus `readonly x=1`"],
+ "C17": ["words after `!`, `{`, `(`, `then`, `do`, `else`, `|`, `&&`, `;` and after assignment words or redirections preceding the command name are in command position and are replaced; words after those are not",
+         "a blank-ending value followed by a word that is itself a blank-ending alias (the chain continues to the third word); global aliases in argument positions; an alias defined on a line is not yet in effect on that same line"],
+ "C18": ["files read by `.` and strings given to `eval` or `-c`: an alias or option set by one line governs the following lines, and a syntax error in a later line does not prevent the earlier lines' effects",
+         "multi-byte characters and very long lines split across the underlying reads; standard input that is a seekable file versus a pipe (the rest of the input remains available to `read` and to subshells at the right offset)"],
+ "C19": ["permission bits: files and directories created under various umasks, later opens failing with EACCES for reading or writing, unsearchable directories, `cd` into them, executing a file without execute permission (126)",
+         "pipes: a writer blocking until the reader reads, a reader of a pipe without writers seeing end of file, descriptors of a pipe inherited by several children, SIGPIPE with default and ignored dispositions, exit statuses of such children"],
+ "C20": ["`set` (`-o name`, `+o name`, `-oname`, grouped `-eu` / `+eu`, long options, `set -- -x`), `cd -L -P` (the last one wins), `umask -S`, `ulimit`, `kill -s TERM` / `-sTERM` / `-TERM` / `-15` / `-l`",
+         "`return`, `exit`, `break`, `continue`, `shift` with non-numeric, negative or surplus operands; an option requiring an argument as the last argument; `command -v` / `-V` / grouped `-pv`; `type`, `exec`, `.` with options"],
+}
+ROUND_FOCUS["G"] = FOCUS_G
+
 def main():
     rnd, pid = sys.argv[1], sys.argv[2]
     props = {json.loads(l)["id"]: json.loads(l) for l in open("/verif/properties.jsonl")}
